@@ -81,7 +81,8 @@ structure Th where
   valid : Bool := true
   fail : Nat := 0
   removed : Bool := false    -- dropped from the registry
-  deriving Inhabited
+
+instance : Inhabited Th := ⟨{ actor := 0, q := init 1 0 }⟩
 
 /-- what a parked frontend call will do when resumed -/
 inductive Pend
